@@ -262,7 +262,9 @@ def gen_pair(rng, kind: Optional[str] = None, diff: Optional[str] = None) -> dic
         other["dtype"] = rng.choice(DTYPES[1:])
     return {"pattern": "pair", "kind": kind, "diff": diff, "a": base, "b": other,
             "third": rng.chance(0.5), "swap": rng.chance(0.3), "chain": rng.chance(0.25) and diff not in ("shape", "dtype"),
-            "sym": rng.chance(0.2) and diff != "shape", "det_param": rng.chance(0.25)}
+            "sym": rng.chance(0.2) and diff != "shape", "det_param": rng.chance(0.25),
+            # keyword passed as a traced scalar (runtime parameter of the function; works since 978be54)
+            "traced_gain": rng.chance(0.2)}
 
 
 def gen_nested(rng) -> dict:
@@ -376,11 +378,16 @@ def _build_pair(p: Prog) -> None:
     def fn(x, y, deterministic=True):
         det_kw = {"deterministic": deterministic} if det_param else {}
         outs = []
+        kw_a = _kw(a["gain"], det_kw)
+        if d.get("traced_gain"):
+            # exact: 0 * x0 + g  (x0 is finite), as a traced float32 scalar
+            g = a["gain"] if a["gain"] is not None else 1.0
+            kw_a["gain"] = jnp.ravel(x)[0].astype(jnp.float32) * 0.0 + jnp.float32(g)
         if d.get("swap"):
             rb = call_b(y, **_kw(b["gain"], det_kw))
-            ra = call_a(x, **_kw(a["gain"], det_kw))
+            ra = call_a(x, **kw_a)
         else:
-            ra = call_a(x, **_kw(a["gain"], det_kw))
+            ra = call_a(x, **kw_a)
             rb = call_b(y, **_kw(b["gain"], det_kw))
         outs += list(ra) if two else [ra]
         outs += list(rb) if two else [rb]
